@@ -214,3 +214,100 @@ Section ManiDamage.
   Qed.
 
 End ManiDamage.
+
+(* ---------------------------------------------------------------- from bytes to lines *)
+(* overwriting one byte that is neither '\n' nor '\r' with another such byte changes exactly one
+   line, in exactly one position *)
+Lemma starts_with_nl_app : forall pre b post, b <> 10 ->
+  forall b', b' <> 10 -> starts_with_nl (pre ++ b :: post) = starts_with_nl (pre ++ b' :: post).
+Proof.
+  intros [|y pre] b post Hb b' Hb'; cbn [app starts_with_nl]; [|reflexivity].
+  destruct (N.eqb_spec b 10); [contradiction|]. destruct (N.eqb_spec b' 10); [contradiction|]. reflexivity.
+Qed.
+
+Lemma lines_overwrite : forall pre b b' post, b <> 10 -> b <> 13 -> b' <> 10 -> b' <> 13 ->
+  exists A u v B,
+    lines (pre ++ b :: post) = A ++ (u ++ b :: v) :: B /\
+    lines (pre ++ b' :: post) = A ++ (u ++ b' :: v) :: B.
+Proof.
+  induction pre as [|x pre IH]; intros b b' post H1 H2 H3 H4.
+  - cbn [app lines].
+    destruct (N.eqb_spec b 10); [contradiction|]. destruct (N.eqb_spec b' 10); [contradiction|].
+    destruct (N.eqb_spec b 13); [contradiction|]. destruct (N.eqb_spec b' 13); [contradiction|]. cbn [andb].
+    destruct (lines post) as [|l0 ls].
+    + exists [], [], [], []. split; reflexivity.
+    + exists [], [], l0, ls. split; reflexivity.
+  - destruct (IH b b' post H1 H2 H3 H4) as (A & u & v & B & E1 & E2).
+    cbn [app lines]. rewrite (starts_with_nl_app pre b post H1 b' H3).
+    destruct (x =? 10).
+    + exists ([] :: A), u, v, B. rewrite E1, E2. split; reflexivity.
+    + destruct ((x =? 13) && starts_with_nl (pre ++ b' :: post)).
+      * exists A, u, v, B. auto.
+      * rewrite E1, E2. destruct A as [|a0 A].
+        -- exists [], (x :: u), v, B. split; reflexivity.
+        -- exists ((x :: a0) :: A), u, v, B. split; reflexivity.
+Qed.
+
+Section ManiBytes.
+  Variable crc : list N -> N.
+
+  Lemma one_position_region : forall (u v : list N) b b',
+    firstn 8 (u ++ b' :: v) = firstn 8 (u ++ b :: v) \/ skipn 8 (u ++ b' :: v) = skipn 8 (u ++ b :: v).
+  Proof.
+    intros u v b b'. destruct (Nat.le_gt_cases 8 (length u)) as [H|H].
+    - left. rewrite !firstn_app. replace (8 - length u)%nat with O by lia. reflexivity.
+    - right. rewrite !skipn_app. rewrite !(skipn_all2 u) by lia.
+      destruct (8 - length u)%nat as [|k] eqn:E; [lia|]. reflexivity.
+  Qed.
+
+  Lemma sep_one_byte_changed : forall u v b b', b' <> b -> str_eqb (u ++ b :: v) SEP = true -> str_eqb (u ++ b' :: v) SEP = false.
+  Proof.
+    intros u v b b' Hne H.
+    assert (Heq : forall a c, lex_cmp a c = Eq -> a = c).
+    { induction a as [|y a IH]; intros [|z c] H0; cbn in H0; try discriminate; [reflexivity|].
+      destruct (N.compare_spec y z); try discriminate. subst. f_equal. apply IH. exact H0. }
+    unfold str_eqb in *. destruct (lex_cmp (u ++ b :: v) SEP) eqn:E1; try discriminate.
+    destruct (lex_cmp (u ++ b' :: v) SEP) eqn:E2; try reflexivity.
+    apply Heq in E1. apply Heq in E2. rewrite <- E1 in E2. apply app_inv_head in E2. congruence.
+  Qed.
+
+  (* the byte-level statement: one byte of a manifest that reads to the end is overwritten, neither
+     the old nor the new byte being '\n' or '\r'.  Under the hypothesis that crc tells the rest of
+     the damaged line from the rest of the original line, the damaged manifest reads to the same
+     state or fails with an error. *)
+  Theorem mani_byte_overwrite_detected_or_harmless : forall pre b b' post st1,
+    b <> 10 -> b <> 13 -> b' <> 10 -> b' <> 13 -> b' <> b ->
+    read_mani crc (Some (pre ++ b :: post)) = Ok st1 ->
+    (forall A u v B, lines (pre ++ b :: post) = A ++ (u ++ b :: v) :: B ->
+       lines (pre ++ b' :: post) = A ++ (u ++ b' :: v) :: B ->
+       crc32 crc (skipn 8 (u ++ b' :: v)) = crc32 crc (skipn 8 (u ++ b :: v)) ->
+       skipn 8 (u ++ b' :: v) = skipn 8 (u ++ b :: v)) ->
+    read_mani crc (Some (pre ++ b' :: post)) = Ok st1 \/
+    exists x, read_mani crc (Some (pre ++ b' :: post)) = Err x.
+  Proof.
+    intros pre b b' post st1 H1 H2 H3 H4 Hne Hr Hcrc. unfold read_mani in *.
+    destruct (lines_overwrite pre b b' post H1 H2 H3 H4) as (A & u & v & B & E1 & E2).
+    specialize (Hcrc A u v B E1 E2). rewrite E1 in Hr. rewrite E2.
+    rewrite read_lines_app in Hr |- *.
+    destruct (run_lines crc A empty_edit empty_state) as [[acc st]|x]; [|discriminate].
+    cbn [read_lines] in Hr |- *.
+    assert (Hlen : length (u ++ b' :: v) = length (u ++ b :: v)) by (rewrite !app_length; reflexivity).
+    destruct (do_line crc acc (u ++ b :: v)) as [acc1|e|x|x] eqn:Ed; try discriminate.
+    - (* the damaged line was a checksummed line *)
+      destruct (line_damage_detected_or_harmless crc acc (u ++ b :: v) (u ++ b' :: v) acc1 Ed Hlen (one_position_region u v b b')) as [Hs|Hrej].
+      + exact Hcrc.
+      + left. rewrite Hs, Ed. exact Hr.
+      + right. unfold rejects in Hrej. destruct (do_line crc acc (u ++ b' :: v)); try contradiction; eexists; reflexivity.
+    - (* the damaged line was the separator: it no longer is, and it is too short for anything else *)
+      destruct (do_line_yield crc acc _ _ Ed) as [Hsep _].
+      pose proof (sep_one_byte_changed u v b b' Hne Hsep) as Hs'.
+      assert (Hl8 : (length (u ++ b' :: v) <= 9)%nat).
+      { rewrite Hlen. assert (Heq : forall a c, lex_cmp a c = Eq -> length a = length c).
+        { induction a as [|y a IH]; intros [|z c] H0; cbn in H0; try discriminate; [reflexivity|].
+          destruct (N.compare y z); try discriminate. cbn [length]. f_equal. apply IH. exact H0. }
+        unfold str_eqb in Hsep. destruct (lex_cmp (u ++ b :: v) SEP) eqn:Ec; try discriminate.
+        apply Heq in Ec. rewrite Ec. cbn. lia. }
+      right. pose proof (short_line_rejected crc _ Hl8 Hs' acc) as Hrej. unfold rejects in Hrej.
+      destruct (do_line crc acc (u ++ b' :: v)); try contradiction; eexists; reflexivity.
+  Qed.
+End ManiBytes.
